@@ -61,6 +61,17 @@ CLAIMED = {
         design="§4 C20", technique="Coq proof of handler models + process-level pipeline runs (oracle = property statement)",
         note="Partial by design (DESIGN §9): handler theorems are about hand-written models tied by a differential run; everything analogue, Boost option "
              "parsing and iostreams are only tested.  One known finding (no acquisition for some link parameters with silent audio)."),
+    "C02": dict(
+        text="Machine-checked proof (Coq) that Viterbi<Trellis<4,2>,W>::decode (mirror ImplViterbi.v) is maximum-likelihood for the M17 "
+             "convolutional code with a free tail: for every width 2..6, every even IN with IN/2<=244, OUT<=IN/2, every int8 soft vector "
+             "(erasures, out-of-range values) and every state of the decoder object, the bits written are the first OUT bits of a globally "
+             "distance-minimising input word, the cost is min/L rounded to nearest, the result does not depend on the object state, no "
+             "int16/int32 value overflows; consequences for the four M17 geometries: correction of every flip pattern below half the "
+             "computed free distance and exact decoding of clean code words under the P1/P2/P3 erasure masks.  The zero-terminated reading is "
+             "refuted (interpretation note).  Model tied to the source by regenerated constants, table dump and a differential run "
+             "(exhaustive over {-L,0,+L}^IN for small IN); independent reference DP / brute force on the real code as the violation search.",
+        design="§4 C02", technique="Coq proof (generic layered-DP optimality, butterfly = relaxation, chainback = traceback, computed free distance) "
+                                   "+ extracted-model differential with tie-break-rule matching"),
 }
 
 NOT_YET = {}
